@@ -172,3 +172,18 @@ func Sign(n *note.Note, signers ...note.Signer) ([]byte, error) {
 	Log(Ev{K: "Sign", B: [][]byte{base, c}, U: append([]uint64{t}, keys...)})
 	return c, nil
 }
+
+// VList models note.VerifierList.
+type VList struct{ L []note.Verifier }
+
+func (v *VList) Verifier(name string, hash uint32) (note.Verifier, error) {
+	for _, x := range v.L {
+		if x != nil && x.Name() == name && x.KeyHash() == hash {
+			return x, nil
+		}
+	}
+	return nil, errOpen
+}
+
+//wsym:replace golang.org/x/mod/sumdb/note.VerifierList
+func VerifierList(list ...note.Verifier) note.Verifiers { return &VList{L: list} }
